@@ -8,6 +8,7 @@ from report import Result, Ob, eq_ob, req_ob
 import config_model as CM
 
 KNOWN = {"scatter", "cumsum", "gather", "permidx", "elem"}
+KNOWN_CONTOUR = {"cumsum", "gather", "permidx", "elem", "at", "abs", "searchsorted", "last", "pick", "min", "max", "idx"}
 TRUST = "numpy: argsort ascending and stable; a[::-1] / np.flip reverse; cumsum inclusive prefix sums; searchsorted(side='left') first index with c[i] >= v; a[p] gathers, a[p] = v scatters"
 
 
@@ -16,6 +17,8 @@ def _recognised(x, known):
     for a in x.atoms():
         if a.kind == "fn" and a.name not in known:
             return False, a.name
+        if a.kind == "sym" and any(c in a.name for c in "@(:?"):
+            return False, a.name  # placeholder for an operation without array semantics
     return True, None
 
 
@@ -104,6 +107,10 @@ def contour_obligations(P):
             continue
         k = alg.atom_expr(ks[0])
         carr, target, side = ks[0].args
+        unrec = [bad for ok_, bad in (_recognised(x, KNOWN_CONTOUR) for x in (carr, target, level, area) if isinstance(x, Expr)) if not ok_]
+        if unrec:
+            obs.append(req_ob("R-COUNT", site, "level and area are built from recognised sort / prefix-sum / search operations %s" % tag, None, detail="unrecognised operation %s" % unrec[0]))
+            continue
         cell = (area / (k + ONE)).simp()
         obs.append(req_ob("R-COUNT", site, "area is (k + 1) cells times a cell area that does not depend on the field %s" % tag,
                           ks[0] not in cell.atoms() and not any(a.kind == "fn" and a.name in ("gather", "cumsum", "permidx") for a in cell.atoms()), detail="cell area %r" % (cell,), key={"clause": "area"}))
